@@ -176,6 +176,7 @@ Fixpoint png_lines (fuel : nat) (nbytes : nat) (bpp : Z) (data above : list Z) :
 
 Definition apply_png_predictor (colors columns bpc : Z) (data : list Z) : fres :=
   if negb ((bpc =? 8) || (bpc =? 1)) then FErr EValue
+  else if (colors <? 1) || (columns <? 1) then FErr EValue     (* unsupported predictor geometry: PDFValueError *)
   else
     let nbytes := Z.to_nat ((colors * columns * bpc + 7) / 8) in
     let bpp := Z.max 1 (colors * bpc / 8) in
@@ -208,6 +209,7 @@ Fixpoint tiff_lines (fuel : nat) (nbytes : nat) (bpp : Z) (data : list Z) : fres
 
 Definition apply_tiff_predictor (colors columns bpc : Z) (data : list Z) : fres :=
   if negb (bpc =? 8) then FErr EValue
+  else if (colors <? 1) || (columns <? 1) then FErr EValue     (* unsupported predictor geometry: PDFValueError *)
   else
     let bpp := colors * (bpc / 8) in
     let nbytes := Z.to_nat (columns * bpp) in
@@ -253,7 +255,7 @@ Definition lzw_feed (s : lzwst) (code : Z) : feedres :=
       match nth_error (ztable s) (Z.to_nat code) with
       | Some (Some x) => FeedOk x (mkZ (ztable s) (Some x) (znbits s))
       | Some None => FeedOk [] (mkZ (ztable s) None (znbits s))       (* table[256/257] is None: unreachable (codes tested above) *)
-      | None => FeedIndexErr
+      | None => FeedCorrupt                                          (* code beyond the table: CorruptDataError *)
       end
     else
       let prev := match zprev s with Some p => p | None => [] end in
